@@ -14,6 +14,7 @@ import (
 	ccode "github.com/free5gc/chf/ccs_diameter/code"
 	cdt "github.com/free5gc/chf/ccs_diameter/datatype"
 	"verifharness/h"
+	"verifharness/stackenv"
 )
 
 type CCR struct {
@@ -31,6 +32,7 @@ type CCR struct {
 }
 
 type C07Case struct {
+	Odd string `json:"odd,omitempty"` // stored balance text of one more account (requests with acct -6 go to it)
 	ZeroRG bool    `json:"zeroRG,omitempty"` // the accounts' rating groups are 0, 1, 2 (and the requests carry a Service-Identifier that is not the rating group)
 	BigRG  bool    `json:"bigRG,omitempty"`  // the accounts' rating groups are 2^31-1, 2^31, ... (Unsigned32 on the wire) instead of 1, 2, ...
 	Bal    []int64 `json:"bal"`              // initial balance per account
@@ -43,6 +45,10 @@ func genC07(t *rapid.T) C07Case {
 	for i := 0; i < n; i++ {
 		c.Bal = append(c.Bal, rapid.SampledFrom([]int64{0, 1, 2, 100, 1 << 31, 1 << 32, 1 << 62, 999}).Draw(t, "bal"))
 	}
+	if rapid.IntRange(0, 2).Draw(t, "odd") == 0 {
+		// one more account whose stored balance is a text the server cannot take for a 64-bit balance
+		c.Odd = rapid.SampledFrom([]string{"9223372036854775808", "18446744073709551615", "99999999999999999999999", " 100", "100 ", "1e3", "abc", "", "12.5", "0x10", "٣"}).Draw(t, "oddBalance")
+	}
 	c.BigRG = rapid.IntRange(0, 3).Draw(t, "bigRG") == 0
 	c.ZeroRG = !c.BigRG && rapid.IntRange(0, 3).Draw(t, "zeroRG") == 0
 	m := rapid.IntRange(1, h.Scale(20, 30)).Draw(t, "nReq")
@@ -54,6 +60,9 @@ func genC07(t *rapid.T) C07Case {
 		r := CCR{Acct: rapid.SampledFrom([]int{0, 0, 0, 1, 1, 2, 3, -1, -2, -4, -5}).Draw(t, "acct")}
 		if r.Acct >= n || (long && r.Acct < 0) {
 			r.Acct = 0 // (requests for unknown accounts cost a wait each: the long sequences do without)
+		}
+		if c.Odd != "" && !long && rapid.IntRange(0, 5).Draw(t, "toOdd") == 0 {
+			r.Acct = -6
 		}
 		r.Action = rapid.SampledFrom([]int{0, 0, 0, 0, 1, 1, 2, 3}).Draw(t, "action")
 		r.Type = rapid.SampledFrom([]int{1, 2, 2, 2, 3, 3, 4}).Draw(t, "type")
@@ -125,6 +134,12 @@ func judgeC07(c C07Case) *h.Verdict {
 		accts = append(accts, a)
 		model[i] = b
 	}
+	oddSupi := ""
+	if c.Odd != "" {
+		oddSupi = env.NewSupi()
+		env.SetAccount64(oddSupi, 1, 0, "1")
+		env.FM.SetField(stackenv.Coll, oddSupi, 1, "quota", c.Odd)
+	}
 	if len(c.Reqs) >= 300 {
 		v.Label("sequence>=300-requests")
 	}
@@ -147,6 +162,8 @@ func judgeC07(c C07Case) *h.Verdict {
 		case idx == -5:
 			supi, rg = accts[0].supi+"0", accts[0].rg
 			v.Label("unknown-but-related-identifier")
+		case idx == -6:
+			supi, rg = oddSupi, 1
 		default:
 			supi, rg = accts[0].supi, 9
 		}
@@ -247,6 +264,19 @@ func judgeC07(c C07Case) *h.Verdict {
 		desc := fmt.Sprintf("step %d: CCR action %d type %d amount %d for account %d (model balance %d)", step, r.Action, r.Type, amount, idx, model[idx])
 		if idx == -3 {
 			v.NT("other-subscription-id-type")
+		}
+		if idx == -6 {
+			// nothing can be granted from, or booked on, a balance that cannot be read; the stored text stays
+			v.NT("account-with-unreadable-balance")
+			if ans != nil {
+				var cca cdt.AccountDebitResponse
+				if ans.Unmarshal(&cca) == nil && cca.MultipleServicesCreditControl != nil && cca.MultipleServicesCreditControl.GrantedServiceUnit != nil && cca.MultipleServicesCreditControl.GrantedServiceUnit.CCTotalOctets != 0 {
+					return v.Failf("grant-from-unreadable-balance", "%s: the account's stored balance is the text %q, yet %d units were granted", desc, c.Odd, cca.MultipleServicesCreditControl.GrantedServiceUnit.CCTotalOctets)
+				}
+			}
+			if d := env.FM.Get(stackenv.Coll, oddSupi, 1); d == nil || d["quota"] != c.Odd {
+				return v.Failf("unreadable-balance-rewritten", "%s: the account's stored balance was the text %q and is now %v", desc, c.Odd, d["quota"])
+			}
 		}
 		if idx < 0 {
 			v.NT("unknown-account")
